@@ -12,6 +12,7 @@ OPTS = [{'useSandT': a, 'use_closed_attrib': b, 'rel': r} for a in (False, True)
 SHAPES = ['L', 'C', 'LC', 'CC', 'QQ', 'QL', 'LQC', 'AL', 'CA']
 JOINTS = ['open', 'closed', 'broken', 'broken-closed']   # continuous open / continuous and closed / one discontinuity / discontinuous but ending where it starts
 REVISIT_SHAPES = ['CCCC', 'LCCL', 'QQQQ', 'LQQC']   # closed paths that pass through their start point in the middle
+SPIKE_SHAPES = ['CLLC', 'QLLQ', 'CLAC']               # open paths that leave a point after a curve and come back to it before the next curve
 
 
 def _install_lex(c):
@@ -66,6 +67,8 @@ def build(c, kinds, joints):
         corner[n] = corner[0]
     if joints == 'revisit':
         corner[n // 2] = corner[0]
+    if joints == 'spike':
+        corner[n - 1] = corner[1]
     segs = []
     for i, k in enumerate(kinds):
         s = corner[i]
@@ -113,6 +116,14 @@ def _params(euf):
             if euf and o['rel']:
                 continue
             d = dict(o, kinds=k, joints='revisit', _no_bounded=True)
+            if euf:
+                d['_euf'] = True
+            ps.append(d)
+    for k in SPIKE_SHAPES:
+        for o in OPTS:
+            if euf and o['rel']:
+                continue
+            d = dict(o, kinds=k, joints='spike', _no_bounded=True)
             if euf:
                 d['_euf'] = True
             ps.append(d)
